@@ -487,6 +487,8 @@ def check_complement_none(ctx, res: Result):
             if isinstance(c, ast.Compare) and len(c.ops) == 1 and isinstance(c.ops[0], (ast.Eq, ast.NotEq)):
                 l, r = c.left, c.comparators[0]
                 for a, b in ((l, r), (r, l)):
+                    if isinstance(a, ast.BinOp) and isinstance(a.op, (ast.Add, ast.Sub)) and isinstance(a.right, ast.Constant):
+                        a = a.left  # `len(e) - 1 != order`
                     if isinstance(a, ast.Call) and isinstance(a.func, ast.Name) and a.func.id == "len" and isinstance(b, ast.Name) and b.id in names:
                         out.append((c, b))
         return out
